@@ -309,6 +309,7 @@ func runC15(c *Ctx) {
 	c.Check(okStore, "R4", "retry-after-recorded-on-object", p.Pos(m.htr.Pos()), "the server's Retry-After time is recorded on the object before it is sent for retry", "handleTransferResult does not record the Retry-After time on the object it sends for retry")
 	concatPicksEarliest(c, "R4")
 	retryLaterNotWrapped(c, "R4")
+	retryLaterSurvivesAdapters(c, "R4")
 	if cf := p.Fn("tq", "(batch).Concat"); cf != nil {
 		n := 0
 		for _, b := range cf.Blocks {
